@@ -125,8 +125,30 @@ def h_simple_new(r0: int, b0: int, r1: int, b1: int, nfr: int, foot: int) -> boo
     return ok and tags == want and SNAP[0] == [(kept, rows, "f")] and fmd.num_rows == rows and f.size == end
 
 
-def replay_h_simple_new(**kw):
-    return None, "no concrete driver"
+def replay_h_simple_new(r0, b0, r1, b1, nfr, foot):
+    import shutil, tempfile
+    import pandas as pd
+    import fastparquet
+    from vf.pyshim import filecheck
+    rows = [min(max(int(r), 0), 30) for r in (r0, r1)][:nfr]
+    d = tempfile.mkdtemp(prefix="c02-")
+    try:
+        fn = os.path.join(d, "t.parq")
+        frames = [pd.DataFrame({"a": list(range(100 * i, 100 * i + r))}) for i, r in enumerate(rows)]
+        if not frames:
+            return None, "nothing to write"
+        from fastparquet import writer as w
+        fmd = w.make_metadata(frames[0])
+        w.write_simple(fn, iter(frames), fmd)
+        probs = filecheck.validate(fn)
+        if probs:
+            return True, "file written from %d frames is inconsistent: %s" % (len(frames), probs[0])
+        out = fastparquet.ParquetFile(fn).to_pandas()
+        if list(out["a"]) != [v for f in frames for v in f["a"]]:
+            return True, "rows differ"
+        return False, "valid"
+    finally:
+        shutil.rmtree(d, ignore_errors=True)
 
 
 # --------------------------------------------------------------- C07-A1: single-file append ---
